@@ -48,7 +48,7 @@ struct Gen {
         else if (u < 0.92) E = (uint32_t)rng.range(65, 300);
         else E = (uint32_t)rng.range(1024, 4096);
         while ((uint64_t)n * E > (thorough ? 4000000u : 400000u) && E > 4) E /= 2;
-        if (rng.chance(0.0015) && n <= 6) { static const uint32_t huge[] = {65536, 524288, 524312, 1048576}; E = huge[rng.below(4)]; return E; }   // symbols of 64 KiB .. 1 MiB
+        if (rng.chance(0.006) && n <= 8) { static const uint32_t huge[] = {65536, 524288, 524312, 1048576}; E = huge[rng.below(4)]; return E; }   // symbols of 64 KiB .. 1 MiB
         if (rng.chance(0.03) && n <= 120) { static const uint32_t special[] = {4095, 4096, 4097, 8192, 2048, 12288}; uint32_t s = special[rng.below(6)]; if ((uint64_t)n * s <= 700000u) E = s; }   // page-sized symbols
         (void)k;
         return E;
